@@ -508,6 +508,61 @@ pub fn spaces(tier: Tier) -> Vec<Space> {
             }
         }));
     }
+    // (e++) CHECKMULTISIG(VERIFY) count grid: k items below the signature count m (k = 0..m+2, the first one the dummy), m in
+    // 0..=4, n keys present with a declared key count of n-1, n, n+1, 20 or 21 — every way in which the two counts can
+    // disagree with what is on the stack — with and without a transaction behind the interpreter
+    {
+        let k = PrivateKey::from_hex("c0ffee254729296a45a3885639ac7e10f9d54979a0f5b2d1e8b1c4a7d3f6e5b9").unwrap();
+        let pkc = k.to_public_key().unwrap().to_bytes().unwrap();
+        let mut sig = k.sign_message(b"x").unwrap().to_der_bytes();
+        sig.push(0x41);
+        let decl: [i64; 5] = [-1, 0, 1, 20, 21];
+        v.push(Space::new("multisig-count-grid", 2 * 5 * 4 * 5 * 7 * 2, move |case, acc| {
+            let c = coords(case.idx, &[2, 5, 4, 5, 7, 2]);
+            let op = if c[0] == 0 { 0xaeu8 } else { 0xaf };
+            let (m, n) = (c[1] as usize, c[2] as usize);
+            let declared = match decl[c[3] as usize] {
+                d @ -1..=1 => (n as i64 + d).max(0) as u64,
+                d => d as u64,
+            };
+            let below = c[4] as usize;
+            if below > m + 2 {
+                return;
+            }
+            let with_tx = c[5] == 1;
+            let num = |x: u64| -> Tok { if x == 0 { Tok::Op(0) } else if x <= 16 { Tok::Op(0x50 + x as u8) } else { super::icommon::push_tok(&[x as u8]) } };
+            let mut unlocking: Vec<Tok> = vec![];
+            for i in 0..below {
+                unlocking.push(if i == 0 { Tok::Op(0) } else { super::icommon::push_tok(&sig) });
+            }
+            let mut locking: Vec<Tok> = vec![num(m as u64)];
+            for _ in 0..n {
+                locking.push(super::icommon::push_tok(&pkc));
+            }
+            locking.push(num(declared));
+            locking.push(Tok::Op(op));
+            let (ub, lb) = (rs::serialize(&unlocking), rs::serialize(&locking));
+            let input = json!({"op": opname(op), "items_below_the_signature_count": below, "signature_count": m, "keys_present": n, "declared_key_count": declared, "with_transaction": with_tx, "unlocking_hex": hex::encode(&ub), "locking_hex": hex::encode(&lb)});
+            if with_tx {
+                let mk = || -> Result<Interpreter, String> {
+                    let mut tx = Transaction::new(1, 0);
+                    let mut txin = TxIn::new(&[3u8; 32], 0, &Script::from_bytes(&ub).map_err(|e| e.to_string())?, Some(0xfffffffe));
+                    txin.set_locking_script(&Script::from_bytes(&lb).map_err(|e| e.to_string())?);
+                    txin.set_satoshis(1000);
+                    tx.add_input(&txin);
+                    tx.add_output(&TxOut::new(1, &Script::from_bytes(&[0x51]).unwrap()));
+                    Interpreter::from_transaction(&tx, 0).map_err(|e| e.to_string())
+                };
+                for f in check_total(&mk, acc) {
+                    acc.violate(f.key, case.idx, case.json(input.clone()), f.detail);
+                }
+            } else {
+                let all = [ub.clone(), lb.clone()].concat();
+                let desc = || input.clone();
+                check_script_bytes(&all, acc, case, &desc);
+            }
+        }));
+    }
     // (e') signature opcodes reached after OP_CODESEPARATORs in every position: in the unlocking script, at top level of the
     // locking script, and inside taken / not-taken conditional branches of the locking script
     {
